@@ -35,7 +35,8 @@ LEVEL_NOTE = ("C07_partial: _write_vector, _get_mat, _frame_pos/_frame_axis/_fra
               "(energy_gating over all 16 configurations). Still present (Props/C07Witness.lean, reproduced by the oracle as findings): touch sensors ignore their cutoff; with the ENERGY flag off "
               "d.energy is zeroed where MuJoCo keeps the value an energy sensor computed; accelerometer/framelinacc on a body welded to the world report -gravity where MuJoCo 3.13 reports 0; BALLQUAT "
               "of a zero quaternion. Trusted: Lean kernel + Mathlib, translator, host-graph extractor.")
-ASSUMPTIONS = ["float32 tolerances: position/velocity-stage sensors 2e-4 * (1 + magnitude), acceleration-stage sensors 5e-3 * (1 + |cacc| + |cfrc_int| magnitude); solver run to 1e-10 / 100 iterations",
+ASSUMPTIONS = ["float32 tolerances: position/velocity-stage sensors 2e-4 * (1 + magnitude), acceleration-stage sensors 5e-3 * (1 + |cacc| + |cfrc_int| magnitude); solver run to 1e-10 / 100 iterations; cross-tree family (unconstrained models): 2e-3 * max|sensor value| + 2e-5 * (1 + |cvel| + |xpos|) for position/velocity-stage "
+               "sensors and + 1e-4 * (1 + |cacc|) for acceleration-stage ones, so a 5% error of a frame sensor is a finding",
                "discontinuous sensors (insidesite, rangefinder, touch, distance/normal/fromto) are skipped and counted as ties when MuJoCo's own value changes under a 1e-5 perturbation of qpos",
                "tactile, contact, plugin and user sensors are not generated (counted)"]
 
@@ -432,7 +433,7 @@ def _tie(mujoco, mjm, rng, state, i, ref, tol):
 DISCONT = None
 
 
-def _compare(acc, ctx, mujoco, mjw, rng, xml, mjm, m, nworld, flags_desc, check_spec=True, naconmax=None):
+def _compare(acc, ctx, mujoco, mjw, rng, xml, mjm, m, nworld, flags_desc, check_spec=True, naconmax=None, tight=False, qvel_scale=1.0):
   global DISCONT
   n = S
   DISCONT = {int(n.mjSENS_INSIDESITE), int(n.mjSENS_RANGEFINDER), int(n.mjSENS_TOUCH), int(n.mjSENS_GEOMDIST), int(n.mjSENS_GEOMNORMAL), int(n.mjSENS_GEOMFROMTO)}
@@ -440,7 +441,7 @@ def _compare(acc, ctx, mujoco, mjw, rng, xml, mjm, m, nworld, flags_desc, check_
   states, refs = [], []
   for w in range(nworld):
     mjd = mujoco.MjData(mjm)
-    models.random_state(rng, mjm, mjd, qpos_scale=0.4, qvel_scale=1.0, unnormalized=bool(rng.random() < 0.3))
+    models.random_state(rng, mjm, mjd, qpos_scale=0.4, qvel_scale=qvel_scale, unnormalized=bool(rng.random() < 0.3))
     st = (mjd.qpos.copy(), mjd.qvel.copy(), rng.normal(size=mjm.nu), rng.normal(size=mjm.na) * 0.3, float(rng.uniform(0, 3)))
     states.append(st)
     refs.append(_ref_forward(mujoco, mjm, *st))
@@ -482,6 +483,11 @@ def _compare(acc, ctx, mujoco, mjw, rng, xml, mjm, m, nworld, flags_desc, check_
       g = sd[w, adr:adr + dim]
       cut = float(mjm.sensor_cutoff[i])
       tol = (5e-3 * accmag if stage == 3 else 2e-4 * (1 + np.abs(ref.cvel).max() * (stage >= 2))) * 1.0 + 2e-4 * np.abs(r).max()
+      if tight:
+        # relative tolerance (cross-tree family, no constraints in the model): 0.2% of the sensor's own magnitude + the float32 rounding of the terms it is a difference of;
+        # a 5% error of the value is a finding unless the value itself is below ~1e-3 of the velocities involved
+        tol = 2e-3 * np.abs(r).max() + (1e-4 * (1 + np.abs(ref.cacc).max()) if stage == 3 else 2e-5 * (1 + np.abs(ref.cvel).max() + np.abs(ref.xpos).max()))
+        acc.hit("tight-compare")
       if t == n.mjSENS_CAMPROJECTION:
         tol = 2e-3 * (1 + np.abs(r).max())     # perspective division amplifies float32 error near the image plane
       key = f"{name}|cut={'+' if cut > 0 else '0'}|ref={int(mjm.sensor_reftype[i]) if mjm.sensor_refid[i] >= 0 else '-'}|obj={int(mjm.sensor_objtype[i])}"
@@ -552,6 +558,62 @@ CONTACT_XML = """<mujoco>
 """
 
 
+REL_FRAME = ["framepos", "framequat", "framexaxis", "frameyaxis", "framezaxis", "framelinvel", "frameangvel"]
+OBJ_KINDS = ["body", "xbody", "geom", "site", "camera"]
+
+
+def _cross_tree_case(acc, ctx, mujoco, mjw, rng):
+  """>= 3 separate kinematic trees, all rotating; every relative frame sensor type over all 25 (object type, reference type) pairs with the OBJECT in one tree and the REFERENCE
+  in another (moving, rotating) tree; framelinacc/frameangacc over all object types; compared with mj_forward at a relative tolerance"""
+  ntree = int(rng.integers(3, 5))
+  trees, body_xml = [], []
+
+  def unitq():
+    q = rng.normal(size=4)
+    return q / np.linalg.norm(q)
+
+  def attach(name):
+    return (f'<geom name="g{name}" type="{rng.choice(["sphere", "capsule", "box"])}" size="{_f(rng.uniform(0.04, 0.12, size=3))}" pos="{_f(rng.uniform(-0.1, 0.1, size=3))}" quat="{_f(unitq())}"/>'
+            f'<site name="s{name}" pos="{_f(rng.uniform(-0.15, 0.15, size=3))}" quat="{_f(unitq())}"/>'
+            f'<camera name="c{name}" pos="{_f(rng.uniform(-0.15, 0.15, size=3))}" quat="{_f(unitq())}"/>')
+  for k in range(ntree):
+    kind = ["free", "hinge", "ball"][k] if k < 3 and rng.random() < 0.7 else str(rng.choice(["free", "hinge", "ball"]))
+    r, c = f"T{k}a", f"T{k}b"
+    ax = rng.normal(size=3)
+    ax /= np.linalg.norm(ax)
+    jroot = {"free": "<freejoint/>", "ball": f'<joint type="ball" pos="{_f(rng.uniform(-0.1, 0.1, size=3))}"/>',
+             "hinge": f'<joint type="hinge" axis="{_f(ax)}" pos="{_f(rng.uniform(-0.2, 0.2, size=3))}"/>'}[kind]
+    ax2 = rng.normal(size=3)
+    ax2 /= np.linalg.norm(ax2)
+    body_xml.append(f'    <body name="{r}" pos="{_f(rng.uniform(-1.5, 1.5, size=3))}" quat="{_f(unitq())}">{jroot}{attach(r)}\n'
+                    f'      <body name="{c}" pos="{_f(rng.uniform(-0.4, 0.4, size=3))}" quat="{_f(unitq())}"><joint type="hinge" axis="{_f(ax2)}" pos="{_f(rng.uniform(-0.1, 0.1, size=3))}"/>{attach(c)}</body>\n    </body>')
+    objs = {}
+    for b in (r, c):
+      for kd, nm in (("body", b), ("xbody", b), ("geom", "g" + b), ("site", "s" + b), ("camera", "c" + b)):
+        objs.setdefault(kd, []).append(nm)
+    trees.append(objs)
+  sens = []
+  for st in REL_FRAME:
+    for ot in OBJ_KINDS:
+      for rt in OBJ_KINDS:
+        a, b = rng.choice(ntree, size=2, replace=False)
+        on, rn = str(rng.choice(trees[a][ot])), str(rng.choice(trees[b][rt]))
+        sens.append(f'    <{st} objtype="{ot}" objname="{on}" reftype="{rt}" refname="{rn}"/>')
+  for st in ("framelinacc", "frameangacc"):
+    for ot in OBJ_KINDS:
+      for k in range(ntree):
+        sens.append(f'    <{st} objtype="{ot}" objname="{rng.choice(trees[k][ot])}"/>')
+  g = rng.normal(size=3) * 2 + np.array([0, 0, -9.81])
+  xml = (f'<mujoco>\n  <compiler angle="radian"/>\n  <option gravity="{_f(g)}" timestep="0.004"><flag contact="disable" energy="enable"/></option>\n  <worldbody>\n'
+         + "\n".join(body_xml) + "\n  </worldbody>\n  <sensor>\n" + "\n".join(sens) + "\n  </sensor>\n</mujoco>\n")
+  mjm = mujoco.MjModel.from_xml_string(xml)
+  assert len(set(mjm.body_rootid[1:])) >= 3
+  m = mjw.put_model(mjm)
+  acc.hit("cross-tree-family")
+  acc.hit(f"cross-tree:ntree={ntree}")
+  _compare(acc, ctx, mujoco, mjw, rng, xml, mjm, m, int(rng.integers(1, 3)), f"cross-tree family, {ntree} trees", check_spec=True, tight=True, qvel_scale=float(rng.uniform(1.0, 3.0)))
+
+
 def _contact_case(acc, ctx, mujoco, mjw, rng):
   q = rng.normal(size=4) * 0.3 + np.array([1, 0, 0, 0]) if rng.random() < 0.5 else np.array([0.0, 1.0, 0.0, 0.0]) + rng.normal(size=4) * 0.2
   q /= np.linalg.norm(q)
@@ -581,7 +643,7 @@ def _contact_case(acc, ctx, mujoco, mjw, rng):
     models.random_state = orig
 
 
-def _run(ctx, ncases, ncontact, rec):
+def _run(ctx, ncases, ncontact, rec, ncross=2):
   global S
   import mujoco
   import mujoco_warp as mjw
@@ -607,6 +669,8 @@ def _run(ctx, ncases, ncontact, rec):
         continue
       acc.sample({"nsensor": int(mjm.nsensor), "types": sorted({t for t, _ in sens})[:12], "flags": flags})
       _compare(acc, ctx, mujoco, mjw, rng, xml, mjm, m, int(rng.choice([1, 1, 2, 3])), flags)
+    for c in range(ncross):
+      _cross_tree_case(acc, ctx, mujoco, mjw, rng)
     for c in range(ncontact):
       _contact_case(acc, ctx, mujoco, mjw, rng)
 
@@ -681,17 +745,17 @@ RULE = ("random forests of 2-5 bodies (free/ball/hinge/slide joints, all geom ty
         "fixed and spatial tendons with spring dead bands, motors and tendon position actuators, random gravity and magnetic field, contacts disabled; 6-30 sensors per model drawn type-stratified "
         "from every sensor type put_model accepts (rejected types are learnt from NotImplementedError and counted), frame sensors over all five object types with and without a reference frame "
         "(sometimes the object itself), cutoff 0 or positive; ENERGY flag on/off, sometimes SENSOR / GRAVITY / SPRING disabled; 1-3 worlds with different random states (30% with "
-        "unnormalised quaternions), controls, activations and times; compared per sensor and per world with mujoco.mj_forward; Spec formulas evaluated on mujoco_warp's own arrays; plus a contact "
+        "unnormalised quaternions), controls, activations and times; compared per sensor and per world with mujoco.mj_forward; a cross-tree family (>= 2 models per run with 3-4 separate rotating trees - free, ball and hinge roots with a hinged child each - and every relative frame sensor type over all 25 object-type x reference-type pairs with object and reference in DIFFERENT trees, framelinacc/frameangacc over all object types, tolerance 0.2% of the sensor magnitude); Spec formulas evaluated on mujoco_warp's own arrays; plus a contact "
         "family (sphere resting on a plane: touch with cutoff, rangefinder, distance/normal/fromto, force); five fixed cases run first (two regression cases of repaired defects, three witness triggers); distinct = (type, cutoff active?, reftype, objtype)")
 
 
 def correspondence(ctx):
   from harness.corr import func_corr
   fc = func_corr.run(FUNCS, ncases=96 if ctx.thorough else 32, seed=ctx.seed, int_ranges={"util_misc.poly_potential": (0, 1)})
-  acc, kc = _run(ctx, 60 if ctx.thorough else 8, 16 if ctx.thorough else 3, True)
+  acc, kc = _run(ctx, 60 if ctx.thorough else 8, 16 if ctx.thorough else 3, True, ncross=8 if ctx.thorough else 2)
   return result(acc, RULE, kc=kc, fc=fc)
 
 
 def search(ctx, breaks):
-  acc, _ = _run(ctx, 80, 20, False)
+  acc, _ = _run(ctx, 80, 20, False, ncross=10)
   return search_result(acc, "mujoco.mj_forward sensordata and energy, per sensor and per world")
